@@ -26,7 +26,8 @@ MCInit == {[BaseState EXCEPT !.pausedBM = fl[1], !.pausedSR = fl[2], !.msgrs = m
 Amts    == IF Thorough THEN {ABSENT, -1, 0, 1, 2, 3} ELSE {ABSENT, 0, 1, 2, 3}
 MRcpts  == IF Thorough THEN {B("j", "x1"), Pad("a2"), Zero32, Empty, Bytes(31, "junk"), Bytes(31, "zero"), Bytes(33, "junk")}
                        ELSE {B("j", "x1"), Zero32, Bytes(31, "junk")}
-Toks    == IF Thorough THEN {MINT, "MINT_UP", "MINT_LOW", "MINT_FOLD", "OTHER", "EMPTY"} ELSE {MINT, "MINT_UP", "OTHER"} \cup (IF MintLower = MINT THEN {} ELSE {"MINT_LOW"})
+\* ("MINT_LOW" is a spelling of its own only on a chain whose minting denom is mixed-case; elsewhere it IS "MINT")
+Toks    == (IF Thorough THEN {MINT, "MINT_UP", "MINT_FOLD", "OTHER", "EMPTY"} ELSE {MINT, "MINT_UP", "OTHER"}) \cup (IF MintLower = MINT THEN {} ELSE {"MINT_LOW"})
 Dsts    == IF Thorough THEN {"d1", "d2"} ELSE {"d1"}
 Callers == IF Thorough THEN {B("j", "x2"), Zero32, Empty, Bytes(31, "junk"), Bytes(33, "zero")} ELSE {B("j", "x2"), Zero32, Bytes(31, "junk")}
 Froms   == IF Thorough THEN {"a1", "GARBAGE"} ELSE {"a1"}
